@@ -7,7 +7,9 @@ or to an earlier inner one, so chains of depth 3+ form), fire or cancel an inner
 nothing, fires callback, fires errback, raises}.  Wherever a failure is offered (errback operations, the errback-firing
 canceller) the form is tape-chosen among the documented ones: errback(exception), errback(Failure), argument-less
 errback() from inside an except block.  Deferred debugging (defer.setDebugging) is a per-run configuration value (on
-in a quarter of the runs, restored afterwards).  Operations stay enabled after
+in a quarter of the runs, restored afterwards).  The class of every Deferred is tape-chosen too (per-run knob: all plain
+Deferreds / mixed / all subclass instances; the subclasses - a direct one and a subclass of it with its own constructor -
+override nothing of the protocol), so a plain Deferred waits on a subclass instance and the other way round.  Operations stay enabled after
 the Deferred has fired (that is the point: second results, late results after a
 canceller-less cancel, cancel of a fired Deferred).  Oracle: the reference state
 machine in models/deferred.py (one result; suppress-one-after-cancel; canceller
@@ -36,12 +38,18 @@ RULE = ("run = history of 2..10 tape-chosen operations {callback, errback, cance
         "fire inner, cancel inner} on one outer Deferred (+ up to 3 inners), cancellers drawn from {none, noop, fires callback, fires errback, raises}; "
         "every failure is offered in a tape-chosen documented form {errback(exception), errback(Failure), bare errback() inside an except block}; "
         "Deferred debugging (defer.setDebugging) is on in a quarter of the runs (per-run knob, restored in a finally and in cleanup()); "
+        "every Deferred is an instance of a tape-chosen class {Deferred, a direct application subclass, a subclass of that with its own "
+        "constructor and attribute}; per-run knob classes in {plain, mixed, subclasses}, none of the subclasses overrides anything of the protocol; "
         "non-trivial = a cancel was issued AND (a result was offered to an already-fired Deferred OR the outer waited on an inner); "
         "abstract_states = distinct (canceller kinds, history) of length <= 8 reached")
 ASSUMPTIONS = ["operations are issued from outside callbacks (cancellers fire only the Deferred they are given)",
                "the statement does not depend on how the failure is handed to errback() nor on the Deferred debugging flag: the same "
                "reference machine is used for every errback form and with debugging on or off (the text of AlreadyCalledError, which "
                "debugging extends with creation/invocation stacks, is never inspected or logged)",
+               "'a Deferred' in the statement includes instances of subclasses of Deferred (the class is documented as subclassable and "
+               "Twisted itself returns subclass instances, e.g. DeferredList): the same reference machine is used whatever the class; "
+               "the harness subclasses are defined once at import (Deferred.__init_subclass__ keeps a process-wide registry) and override "
+               "no method of the protocol, only the constructor signature of the second one differs",
                "the argument-less errback() is only used inside an except block (without a current exception it documents "
                "NoCurrentExceptionError, which is outside this statement)",
                "a canceller that raises: the statement does not say whether cancel() propagates the exception and leaves the Deferred "
@@ -49,6 +57,29 @@ ASSUMPTIONS = ["operations are issued from outside callbacks (cancellers fire on
 
 class CancellerBoom(Exception):
     pass
+
+
+# The statement speaks of "a Deferred": an instance of an application-defined subclass IS one (Deferred is documented as
+# subclassable; DeferredList and the Deferreds of several Twisted APIs are subclass instances).  Two subclasses that override
+# nothing of the protocol: a direct one, and an indirect one with a constructor and state of its own.
+class AppDeferred(defer.Deferred):
+    """A direct application-defined subclass; nothing overridden."""
+
+
+class TaggedDeferred(AppDeferred):
+    """A subclass of a subclass, with its own constructor signature and an attribute of its own."""
+
+    def __init__(self, tag, canceller=None):
+        AppDeferred.__init__(self, canceller)
+        self.tag = tag
+
+
+DEFERRED_CLASSES = {"Deferred": lambda name, rc: defer.Deferred(rc),
+                    "AppDeferred": lambda name, rc: AppDeferred(rc),
+                    "TaggedDeferred": lambda name, rc: TaggedDeferred(name, canceller=rc)}
+CLASS_MIX = {"plain": [("Deferred", 1)],
+             "mixed": [("Deferred", 3), ("AppDeferred", 2), ("TaggedDeferred", 2)],
+             "subclasses": [("AppDeferred", 1), ("TaggedDeferred", 1)]}
 
 
 # the documented ways of handing a failure to errback(): an exception instance, a ready-made Failure, or no argument at all
@@ -90,10 +121,14 @@ def run(sim):
 def _run(sim, debug):
     nops = sim.draw_weighted([(2, 1), (3, 2), (4, 3), (5, 3), (6, 3), (7, 3), (8, 3), (9, 1), (10, 1)], "nops")
     w_cancel = sim.draw_choice([3, 1, 5], "w_cancel")
+    # which classes the Deferreds of this run are instances of (per-run knob; with "mixed" a plain Deferred waits on a
+    # subclass instance and the other way round)
+    classes = sim.draw_weighted([("plain", 2), ("mixed", 3), ("subclasses", 1)], "classes")
     m = Interp()
     real = {}
     rlog = []
     calls = {}      # name -> real canceller call count
+    klass = {}      # name -> name of the class the real Deferred is an instance of
     st = {"cid": 0, "val": 0, "inners": 0}
     history = []
     flags = {"cancel": 0, "refire": 0, "waited": 0}
@@ -124,7 +159,11 @@ def _run(sim, debug):
                 elif kind == "raise":
                     raise CancellerBoom(name)
         m.new(name, mc)
-        d = real[name] = defer.Deferred(rc)
+        mix = CLASS_MIX[classes]
+        klass[name] = sim.draw_weighted(mix, "class") if len(mix) > 1 else mix[0][0]
+        if klass[name] != "Deferred":
+            sim.probe("subclass_instance_" + klass[name])
+        d = real[name] = DEFERRED_CLASSES[klass[name]](name, rc)
         d.vname = name
         return kind
 
@@ -146,7 +185,8 @@ def _run(sim, debug):
         real[dname].addBoth(f)
 
     outer_kind = new_deferred("outer")
-    sim.config = {"nops": nops, "outer_canceller": outer_kind, "w_cancel": w_cancel, "debug": debug}
+    sim.config = {"nops": nops, "outer_canceller": outer_kind, "w_cancel": w_cancel, "debug": debug, "classes": classes,
+                  "outer_class": klass["outer"]}
     history.append("canc=%s" % outer_kind)
     add_both("outer", ("echo",))       # recorder: sees the one result the outer delivers
 
@@ -161,6 +201,8 @@ def _run(sim, debug):
                 sim.probe(("late_errback_" if md.suppress else "second_errback_") + form)
             if debug:
                 sim.probe("late_result_ignored_debug" if md.suppress else "second_result_debug")
+            if klass[name] != "Deferred":
+                sim.probe("late_result_ignored_subclass_instance" if md.suppress else "second_result_subclass_instance")
         v = fresh()
         try:
             want = m.fire(md, ("V", v) if how == "callback" else ("F", "e%d" % v))
@@ -189,6 +231,10 @@ def _run(sim, debug):
             sim.fault("cancel_unfired")
         elif md.waiting_on is not None:
             sim.fault("cancel_waiting")
+            if klass[md.waiting_on.name] != "Deferred":
+                sim.fault("cancel_waiting_on_subclass_instance")
+            if klass[name] != "Deferred":
+                sim.probe("cancel_of_waiting_subclass_instance")
         else:
             sim.fault("cancel_fired")
         del m.notes[:]
@@ -223,7 +269,7 @@ def _run(sim, debug):
         iname = "inner%d" % st["inners"]
         kind = new_deferred(iname)
         history.append("add-inner(%s%s)" % (kind, "" if parent == "outer" else "@" + parent))
-        sim.event("add-inner", iname, kind, parent)
+        sim.event("add-inner", iname, kind, parent, klass[iname])
         if parent != "outer":
             sim.probe("inner_chained_to_inner")
         add_both(iname, ("echo",))                 # recorder on the inner: sees the inner's one result
@@ -258,17 +304,17 @@ def _run(sim, debug):
             # compare everything observable with the model
             for n in ["outer"] + inners + (["inner%d" % st["inners"]] if op == "add-inner" else []):
                 sim.check("canceller-call-count", calls[n] == m.ds[n].canceller_calls, op,
-                          lambda: "canceller of %s called %d times, model %d" % (n, calls[n], m.ds[n].canceller_calls))
+                          lambda: "canceller of %s called %d times, model %d (history %r, classes %r)" % (n, calls[n], m.ds[n].canceller_calls, history, sorted(klass.items())))
             if rlog != m.log:
                 k = 0
                 while k < len(rlog) and k < len(m.log) and rlog[k] == m.log[k]:
                     k += 1
-                sim.fail("delivered-results", op, "first difference at #%d: real %r model %r (history %r)" % (k, rlog[k:k + 3], m.log[k:k + 3], history))
+                sim.fail("delivered-results", op, "first difference at #%d: real %r model %r (history %r, classes %r)" % (k, rlog[k:k + 3], m.log[k:k + 3], history, sorted(klass.items())))
             for n in sorted(real):
                 rv, mv = real_view(real[n]), m.ds[n].view()
                 if rv != mv:
                     field = ["called", "paused", "result", "pending"][[a == b for a, b in zip(rv, mv)].index(False)]
-                    sim.fail("state-" + field, op, "%s real %r model %r (history %r)" % (n, rv, mv, history))
+                    sim.fail("state-" + field, op, "%s real %r model %r (history %r, classes %r)" % (n, rv, mv, history, sorted(klass.items())))
             if m.ds["outer"].waiting_on is not None:
                 flags["waited"] += 1
     if len(history) <= 9:   # canceller kind + at most 8 operations
@@ -289,4 +335,11 @@ MUTANTS = [
     "with debugging on a second result is dropped instead of raising (`raise AlreadyCalledError(extra)` -> `return`): CAUGHT (second-result-raises)",
     "cancel() arms the one-late-result allowance only with debugging off (`_suppressAlreadyCalled = not self.debug`): CAUGHT (one-late-result-ignored)",
     "errback(Failure instance) returns early while the allowance is armed (flag not consumed): CAUGHT (delivered-results)",
+    "round 5 (class of every Deferred drawn from {Deferred, subclass, subclass of subclass}): cancel() of a fired Deferred forwards only to an "
+    "exact Deferred (`isinstance(self.result, Deferred)` -> `type(self.result) is Deferred`): CAUGHT (canceller-call-count, delivered-results)",
+    "_runCallbacks recognises only an exact Deferred as a returned Deferred (`type(current.result) in _DEFERRED_SUBCLASSES` -> `is Deferred`): "
+    "CAUGHT (delivered-results)",
+    "__init_subclass__ registers only direct subclasses of Deferred (second-level subclass instances are then not waited on): CAUGHT (delivered-results)",
+    "`or type(resultResult) in _DEFERRED_SUBCLASSES` -> `is Deferred` in _runCallbacks: SURVIVES, equivalent (a fired Deferred whose result is a "
+    "Deferred is always paused, so the next operand of the `or` decides the same way)",
 ]
